@@ -314,9 +314,10 @@ pub fn run(ctx: &Ctx) -> Rep {
         }
         // rare categories (straight flush, quads: 266,432 hands) get 32 extra seeded slot orders each: an
         // order-dependent shortcut taken only for such hands is then met by every one of them
-        if expect <= 166 && !ctx.smoke() {
+        if expect <= 322 && !ctx.smoke() {
+            // (full houses, 3.47 M hands, get 16 orders; straight flushes and quads 32)
             let mut rng = Rng::new(seed, drive::hand_code(c) ^ 0x7575);
-            for k in 0..32 {
+            for k in 0..(if expect <= 166 { 32 } else { 16 }) {
                 let p = permuted(c, &mut rng);
                 check7(st, &m, &p, expect, k < 4);
                 st.x.orders += 1;
@@ -558,7 +559,7 @@ pub fn run(ctx: &Ctx) -> Rep {
         "every 6-subset and every 7-subset of the deck in canonical slot order (enumerated once each = distinct) through hand_rank_value_and_hand; \
          the other three entry points on a seeded 1-in-{}/1-in-{} selection; {} seeded slot order(s) for 1-in-{} six-card and {} for 1-in-{} seven-card hands; \
          plus the row-targeting set (every class x every five-slot row with a uniquely best sub-hand placed in that row) and, for every class, one six- and one seven-card hand in all 720 / 5040 slot orders. \
-         32 extra seeded orders for every hand whose best is a straight flush or quads; every hand with five or more cards of a suit (a seeded 1-in-8 of the seven-card ones in quick) ranked right after each of its suit-swapped twins through all four entry points. Oracle = direct rule-based evaluation, cross-checked against min over 5-subsets. thorough={}",
+         32 extra seeded orders for every hand whose best is a straight flush or quads and 16 for every seven-card full house; every hand with five or more cards of a suit (a seeded 1-in-8 of the seven-card ones in quick) ranked right after each of its suit-swapped twins through all four entry points. Oracle = direct rule-based evaluation, cross-checked against min over 5-subsets. thorough={}",
         all_entries_6, all_entries_7, perms_each_6, perm_rate_6, perms_each_7, perm_rate_7, thorough
     );
     rep
